@@ -19,7 +19,8 @@ RULE = ("histories: (i) exhaustive single operations (clear, push_back, pop_back
         "wchar_t/char32_t/char16_t/char8_t instantiations; after EVERY step size(), data()[size()] and the "
         "contents are compared. queries: the six search members with explicit and default position, compare, "
         "compare(pos1,n1,str,pos2,n2), copy, replace on every content of length <= 3 x needle of length <= 2 x "
-        "pos in {0..len+1, npos}. non-trivial = distinct case whose impl leg contains a non-empty state")
+        "pos in {0..len+1, npos}; compare/compare5/search again on every pair of contents of length <= 2 over the full "
+        "alphabet {a, b, top-bit character (negative for char/wchar_t), NUL} for all five character types. non-trivial = distinct case whose impl leg contains a non-empty state")
 
 TRUSTED_BASE = ["reference leg: libstdc++ 12 std::basic_string on the same histories"]
 ASSUMPTIONS = ["LP64: size_t is 64 bits", "char signed 8-bit, wchar_t signed 32-bit (x86-64 Linux)",
@@ -105,6 +106,23 @@ def gen_queries(ck, caps, out, rng, light=False):
                             out.append(f"copy_m {ck} {cap} {L(l)} {k} {p}")
                         if p != NPOS and k != NPOS:
                             out.append(f"replace {ck} {cap} {L(l)} {p} {k} {L(n)}")
+
+
+def gen_queries_hi(ck, cap, out, rng):
+    """compare / search on contents over the FULL alphabet of the character type (a, b, a character with the top
+    bit set - negative for char/wchar_t -, NUL): ordering of characters >= 0x80 and embedded NULs"""
+    al = ALPHA[ck]
+    C = strings(al, min(2, cap))
+    for l in C:
+        for n in C:
+            out.append(f"cmp_1 {ck} {cap} {L(l)} {L(n)}")
+            for _ in range(2):
+                p1, n1 = rng.choice([0, 1, len(l)]), rng.choice([0, 1, 2, NPOS])
+                p2, n2 = rng.choice([0, 1, len(n)]), rng.choice([0, 1, 2, NPOS])
+                out.append(f"cmp_5 {ck} {cap} {L(l)} {p1} {n1} {L(n)} {p2} {n2}")
+            fam = rng.choice(FAMS)
+            for p in [0, len(l), NPOS]:
+                out.append(f"q_{fam} {ck} {cap} {L(l)} {L(n)} {p}")
 
 
 def rchars(rng, ck, n):
@@ -211,6 +229,8 @@ def gen(tier, rng):
     gen_queries("c", [0, 1, 15], out, rng, light=True)
     gen_queries("w", [3, 16], out, rng, light=True)
     gen_queries("u", [3, 16], out, rng, light=True)
+    for ck, cap in [("c", 3), ("c", 16), ("w", 3), ("u", 3), ("s", 15), ("b", 16)]:
+        gen_queries_hi(ck, cap, out, rng)
     nh = 4000 if quick else 400000
     for ck, caps in CAPS.items():
         share = {"c": 0.6, "w": 0.15, "u": 0.15, "s": 0.05, "b": 0.05}[ck]
